@@ -313,9 +313,9 @@ def cases(rng, which, count):
                     k = rng.random()
                     if k < 0.4:
                         fl += ["--only", rng.choice(present)]
-                    elif k < 0.6 and "--per-sites" not in mode:
-                        # a character that does not occur (as it is written): a line / column of zeros.  Not with
-                        # --per-sites: the binary prints `site000|100|…` there (no header line, no separator)
+                    elif k < 0.6:
+                        # a character that does not occur (as it is written): a line / column of zeros (with --per-sites
+                        # the binary printed `site000|100|…` - no header line, no separator - until /repo f166558)
                         fl += ["--only", rng.choice([c for c in "ACGTNXacgtnx-*Z" if c not in present])]
                     elif k < 0.65:
                         fl += ["--only", "*"]
